@@ -58,7 +58,7 @@ def r14_1(ctx, R):
                     licensed = None
                     ctx.ob("R14.1", d, "wake-on-plain-empty@%s" % _site_label(d, bb), False, d.loc(bb), "self-wake on the 'queue empty' arm spins the task")
             ctx.ob("R14.1", d, "licensed-self-wake@%s" % _site_label(d, bb), licensed is not None, d.loc(bb), "licence: %s" % licensed)
-    ctx.floor("R14.1", "task-wake-sites", n, 2, 2)
+    ctx.floor("R14.1", "task-wake-sites", n, 2)
     # uses of Context::waker
     m = 0
     for b in ctx.facts.fn_bodies():
@@ -112,7 +112,7 @@ def r14_2(ctx, R):
             n += 1
             ok = any(b.dominates(x, bb) for x in falseb) and _writes_true_before(ctx, R, b, bb)
             ctx.ob("R14.2", b, "notify-behind-false->true@%s" % _site_label(b, bb), ok, b.loc(bb))
-    ctx.floor("R14.2", "notify-sites", n, 1, 1)
+    ctx.floor("R14.2", "notify-sites", n, 1)
     for mk in R.mark_fns:
         from roles import reaches
         ctx.ob("R14.2", mk, "mark-does-not-notify", not reaches(ctx.facts, mk, RE_NOTIFY, 2), d_loc(mk))
